@@ -1,11 +1,49 @@
+import OdmlModel.Model.Merge
 import Driver.Util
 import Driver.Loop
+import Driver.MergeCodec
 open Lean Drv
 
 namespace DrvC13
+open Merge DrvMerge
 
-/-- Stub: replaced when the model of C13 is built. -/
-def handle (_j : Json) : Except String Json := throw "model of C13 not built"
+def handle (j : Json) : Except String Json := do
+  let op ← getStr j "op"
+  match op with
+  | "merge" =>
+    let d ← decSec (← getVal j "d")
+    let s ← decSec (← getVal j "s")
+    let k ← getBool j "strict"
+    let r := merge convC k default d s
+    pure (jobj [("out", encOutcome r.2), ("d", encSec r.1),
+                ("check", encOutcome (mergeCheck convC k d s)),
+                ("clash", jbool (typeClash d s)), ("wf", jbool (wfSec convC s)),
+                ("typed", jbool (typedSec d)), ("conflict", jbool (treeConflict d s))])
+  | "check" =>
+    let d ← decSec (← getVal j "d")
+    let s ← decSec (← getVal j "s")
+    pure (encOutcome (mergeCheck convC (← getBool j "strict") d s))
+  | "pmerge" =>
+    let d ← decProp (← getVal j "d")
+    let s ← decProp (← getVal j "s")
+    let k ← getBool j "strict"
+    let r := propMerge convC k d s
+    pure (jobj [("out", encOutcome r.2), ("d", encProp r.1),
+                ("check", encOutcome (propMergeCheck convC k d s))])
+  | "extend" =>
+    let d ← decProp (← getVal j "d")
+    let vs ← (← getArr j "vs").toList.mapM decVal
+    let r := extend convC d vs (← getBool j "strict")
+    pure (jobj [("out", encOutcome r.2), ("d", encProp r.1)])
+  | "get" =>
+    let v ← decVal (← getVal j "v")
+    pure (match getC (← optDType j "dtype") v with
+          | none => Json.null
+          | some w => encVal w)
+  | "infer" => pure (jstr (encDType (inferC (← decVal (← getVal j "v")))))
+  | "eq" => pure (jbool (eqC (← decVal (← getVal j "a")) (← decVal (← getVal j "b"))))
+  | "norm" => pure (jchars (normText (← getStr j "s").toList))
+  | _ => throw s!"unknown op {op}"
 
 end DrvC13
 
